@@ -176,6 +176,20 @@ fn main() {
             }
             std::process::exit(0);
         }
+        "c11_so3_point_cone" => {
+            // a cone reduced to its centre (radius 0, legal): for a generic unit centre the computed c.c is 1 - 1.1e-16,
+            // distance(c, c) = 2 acos(c.c) = 4.2e-8 > 0, so the centre - which sample_uniform returns and enforce_bounds
+            // falls back to - fails the bounds check of its own space
+            let sp = SO3StateSpace::new(Some((SO3State::new(1.0, 2.0, 3.0, 4.0), 0.0))).unwrap();
+            let mut rng = rand::rng();
+            let s = sp.sample_uniform(&mut rng).unwrap();
+            println!("distance(centre, centre) = {:e}", sp.distance(&sp.bounds.0, &sp.bounds.0));
+            println!("sample_uniform returned a state that satisfies the bounds: {}", sp.satisfies_bounds(&s));
+            let mut e = SO3State::new(0.0, 0.0, 1.0, 0.0);
+            sp.enforce_bounds(&mut e);
+            println!("after enforce_bounds the state satisfies the bounds: {}", sp.satisfies_bounds(&e));
+            std::process::exit(0);
+        }
         "c12_so3_centre" => {
             // SO3StateSpace::new stores the cone centre as given: a zero or short quaternion is accepted, and the space it
             // returns cannot be sampled (every candidate is at distance 2*acos(|dot|) > max_angle from such a centre)
